@@ -27,7 +27,7 @@ def real_plans(tier):
 
 def run(tier):
     return snapcheck.run_snap_property(
-        PROP, tier, "SnapTrace_C01.cfg", plans(tier), real_plans=real_plans(tier), real_cfg="RealTrace_C01.cfg",
+        PROP, tier, "SnapTrace_C01.cfg", plans(tier), design=('snap', 'rounding'), real_plans=real_plans(tier), real_cfg="RealTrace_C01.cfg",
         rule="random star-shaped / holed / collapse-prone lattice polygons (validity decided by the TLA+ predicate ValidPolygon), "
              "40-95 % of coordinates aligned to pixel borders or centres, 1-3 tile matrices per call, random flags, 5 synthetic grids "
              "at random placements; every pair of returned edges of every tile matrix tested for a proper crossing by TLC",
